@@ -8,7 +8,7 @@ from .. import shared
 from ..mutate import Mutant, in_func, delete_stmt, in_module
 from ..report import AnalysisError
 from ..srcmodel import unparse, norm, walk_no_nested, calls_in
-from .common import cfg_of, is_method_call, get_kw, facts_at, find_stmt_node, name_defs, derives_from, only_reached_from, parent_chain
+from .common import cfg_of, is_method_call, get_kw, facts_at, find_stmt_node, name_defs, derives_from, only_reached_from, parent_chain, fde_guard
 from . import tr
 from . import unitrules
 from ..tracer import Tracer
@@ -627,6 +627,76 @@ def r6(repo, run):
     run.ok('C12.R6', fi, 'unchanged-code shortcut taken only when neither this code object nor a nested one was patched')
 
 
+def r6b(repo, run):
+    """the patcher evaluated on a code object without instructions of its own, over which of its nested code objects (co_consts) needed
+    patching (the recursive call is a stand-in answering (patched copy, True) / (same object, False)): the result is a rebuilt code
+    object reported as changed exactly when some nested code object changed, and its constants are the patched copies and the
+    untouched constants, in the original order"""
+    import sys
+    import types
+    from ..fde import FDE, Obj, Unsupported
+    fi = repo.func('EvalNode._patch_access_to_globals')
+
+    class Fields(dict):
+        def __contains__(self, k):
+            return isinstance(k, str) and k.startswith('co_')
+
+        def __getitem__(self, k):
+            return dict.__getitem__(self, k) if dict.__contains__(self, k) else ('original', k)
+
+        def get(self, k, d=None):
+            return self[k] if k in self else d
+    bad = []
+    rows = 0
+    for flags in ((True,), (False,), (True, False), (False, True), (True, True), (False, False), (None,), (True, None, False), (None, False, True), (False, None, True, False)):
+        consts = [Obj('c%d' % i, 'code') if fl is not None else 5 for i, fl in enumerate(flags)]
+        code = Obj('code', 'code')
+        code.f = Fields(co_consts=tuple(consts), co_code=b'', co_names=())
+        captured = []
+
+        def ctor(*a, **k):
+            captured.append((a, k))
+            return 'NEW'
+
+        def stub(name, recv, a, k, flags=flags):
+            if name == 'python_is_at_least':
+                return tuple(sys.version_info[:2]) >= tuple(a)
+            if name == '_patch_access_to_globals':
+                c = a[0]
+                i = int(c.name[1:])
+                return (Obj(c.name + 'p', 'code') if flags[i] else c, bool(flags[i]))
+            raise Unsupported('call of ' + name)
+        ev = FDE(repo, stubs={'python_is_at_least', '_patch_access_to_globals'}, stub=stub)
+        ev.extcalls['types.CodeType'] = ctor
+        ev.extcalls['code.replace'] = lambda **k: (captured.append(((), k)), 'NEW')[1]
+        ev.externals = {'types.CodeType': types.CodeType}
+        r = fde_guard(lambda: ev.call(fi, code))
+        rows += 1
+        what = 'a code object whose nested code objects %s' % (', '.join('#%d %s' % (i, 'needs patching' if fl else 'is fine') for i, fl in enumerate(flags) if fl is not None) or 'do not exist')
+        changed = any(flags)
+        if r.raised or not isinstance(r.ret, (tuple, list)) or len(r.ret) != 2:
+            bad.append('%s: %s' % (what, 'raises ' + str(r.raised) if r.raised else 'returns %r' % (r.ret,)))
+            continue
+        got, flag = r.ret
+        if not changed:
+            if got is not code or flag is not False:
+                bad.append('%s: returns (%s, %r), expected the original code object and False' % (what, getattr(got, 'name', got), flag))
+            continue
+        if flag is not True or got != 'NEW':
+            bad.append('%s: returns (%s, %r) - the original code object with its unpatched nested functions is kept; names used inside those functions are then looked up in the real globals' % (what, getattr(got, 'name', got), flag))
+            continue
+        want = [('c%dp' % i if fl else 'c%d' % i) if fl is not None else 5 for i, fl in enumerate(flags)]
+        vals = [v for a, k in captured for v in list(a) + list(k.values())]
+        cs = [[getattr(x, 'name', x) for x in v] for v in vals if isinstance(v, (tuple, list)) and v and all(isinstance(x, (Obj, int)) and not isinstance(x, bool) for x in v) and any(isinstance(x, Obj) for x in v)]
+        if want not in cs:
+            bad.append('%s: the rebuilt code object gets the constants %s, expected %s' % (what, cs[:1] or 'none', want))
+    run.table('C12.R6', rows, 'nested code objects x needs patching')
+    if bad:
+        run.violation('C12.R6', fi, 'nested code object table', bad[0] + (' [%d rows]' % len(bad) if len(bad) > 1 else ''), witness=bad[:4])
+    else:
+        run.ok('C12.R6', fi, 'nested code objects (%d rows)' % rows, 'changed iff any nested code object changed; constants replaced in place, order kept')
+
+
 def _family(repo, fi):
     """the function and the private helpers of its module that are reachable only from it (code moved out of it)"""
     out = [fi]
@@ -748,6 +818,7 @@ def check(repo, run, tier):
     g(r5b, repo, run)
     g(r5c, repo, run)
     g(r6, repo, run)
+    g(r6b, repo, run)
     g(unitrules.config_entry, repo, run, 'C12.R9')
     g(unitrules.eval_context_init, repo, run, 'C12.R1')
     g(unitrules.eval_pipeline, repo, run, 'C12.R10')
@@ -759,6 +830,8 @@ def check(repo, run, tier):
 
 def mutants(repo):
     return [
+        Mutant('nested-change-flag-overwritten', lambda r: in_func(r, 'EvalNode._patch_access_to_globals', "                if done_something_sub:\n                    done_something = True\n", "                done_something = done_something_sub\n"), ['C12.R6']),
+        Mutant('patched-constant-dropped', lambda r: in_func(r, 'EvalNode._patch_access_to_globals', "                return new_const\n", "                return const\n"), ['C12.R6']),
         Mutant('operand-read-before-opcode', lambda r: in_func(r, 'EvalNode._patch_access_to_globals', "arg = code.co_code[i+1]", "arg = code.co_code[i-1]"), ['C12.R5']),
         Mutant('loop-stride-three', lambda r: in_func(r, 'EvalNode._patch_access_to_globals', "                new_bytecode.append(code.co_code[i:i+2])\n\n            i += 2", "                new_bytecode.append(code.co_code[i:i+2])\n\n            i += 3"), ['C12.R5']),
         Mutant('cache-stride-three', lambda r: in_func(r, 'EvalNode._patch_access_to_globals', "                            new_bytecode.append(code.co_code[i+2:i+4])\n                            i += 2", "                            new_bytecode.append(code.co_code[i+2:i+4])\n                            i += 3"), ['C12.R5']),
